@@ -22,7 +22,7 @@ pub enum ReadTextResult<'r, B> {
 }
 //@end
 
-//@extract reader::XmlSource | src/reader/mod.rs :: trait XmlSource | serves=C01,C02,C03,C08,C12,C16,C18
+//@extract reader::XmlSource | src/reader/mod.rs :: trait XmlSource | serves=C01,C02,C03,C08,C12,C16,C17,C18
 /// Represents an input for a reader that can return borrowed data.
 ///
 /// There are two implementors of this trait: generic one that read data from
@@ -50,6 +50,23 @@ pub trait XmlSource<'r, B> {
     proof fn law_after_bom(&self)
         ensures self.after_bom() == self.remaining() || self.after_bom() == strip_bom(self.remaining());
 
+//@if encoding
+    /// the encoding (0 = UTF-8, 1 = UTF-16BE, 2 = UTF-16LE) the sniff will report: that of the first piece
+    spec fn bom_enc(&self) -> Option<u8>;
+
+    /// Determines encoding from the start of input and removes BOM if it is present
+    fn detect_encoding(&mut self) -> (r: io::Result<Option<&'static Encoding>>)
+        ensures
+            (r is Err) == (final(self).faults() > old(self).faults()), final(self).faults() >= old(self).faults(), final(self).remaining().len() <= old(self).remaining().len(),
+            match r {
+                // the sniff may see only the first piece of the input: a BOM is either removed or left in place
+                Ok(e) => final(self).remaining() == old(self).after_bom() && match e {
+                    Some(enc) => old(self).bom_enc() == Some(enc.id),
+                    None => old(self).bom_enc() is None,
+                },
+                Err(_) => final(self).remaining() == old(self).remaining(),
+            };
+//@else
     /// Removes UTF-8 BOM if it is present
     fn remove_utf8_bom(&mut self) -> (r: io::Result<()>)
         ensures
@@ -59,6 +76,7 @@ pub trait XmlSource<'r, B> {
                 Ok(()) => final(self).remaining() == old(self).after_bom(),
                 Err(_) => final(self).remaining() == old(self).remaining(),
             };
+//@endif
 
     /// Read input until start of markup (the `<`) is found or end of input is reached.
     ///
@@ -251,6 +269,19 @@ impl<'a> XmlSource<'a, ()> for &'a [u8] {
     open spec fn after_bom(&self) -> Seq<u8> { strip_bom((*self)@) }
     proof fn law_after_bom(&self) {}
 
+//@if encoding
+    open spec fn bom_enc(&self) -> Option<u8> { sniffed((*self)@) }
+
+    fn detect_encoding(&mut self) -> (r: io::Result<Option<&'static Encoding>>)
+        ensures r is Ok,
+    {
+        if let Some((enc, bom_len)) = crate::encoding::detect_encoding(self) {
+            *self = &self[bom_len..];
+            return Ok(Some(enc));
+        }
+        Ok(None)
+    }
+//@else
     fn remove_utf8_bom(&mut self) -> (r: io::Result<()>)
         ensures r is Ok,
     {
@@ -259,6 +290,7 @@ impl<'a> XmlSource<'a, ()> for &'a [u8] {
         }
         Ok(())
     }
+//@endif
 
     fn read_text(&mut self, _buf: (), position: &mut u64) -> (r: ReadTextResult<'a, ()>) {
         proof { axiom_slice_len(*self); }
